@@ -22,7 +22,7 @@ EXPLANATION = (
 )
 MANIFEST_ENTRY = {
     "category": "other",
-    "text": "Bounded symbolic checking through the real simulation loop: for each program of the corpus and all values of its durations / schedule / condition tables within the horizon, the event log, trajectory, action log and termination step equal those of a reference interpreter of the documented ten-step procedure.",
+    "text": "Bounded symbolic checking through the real simulation loop: for each program of the fixed corpus and of a seeded set generated from the grammar of the dynamic fragment (agents, sub-scenarios, monitors, records, every termination construct, durations in steps and seconds) and all values of its durations / schedule / condition tables within the horizon, the event log, trajectory, action log and termination step equal those of a reference interpreter of the documented ten-step procedure.",
     "note": "Trusted: CrossHair, z3, the reference interpreter, DummySimulation as simulator. Bounds: horizon maxSteps<=4, <=2 agents, nesting depth 2; durations symbolic and unbounded. Outside: real simulators, sensors, dynamic object creation.",
 }
 ASSUMPTIONS = ["DummySimulation physics (no drift)", "durations are integers >= 0; time step in {1/2, 1, 2}"]
